@@ -729,7 +729,8 @@ func Gen(prop, tier string, seed, run uint64) Plan {
 	if prop == "C16" {
 		quietOdds = 2
 	}
-	if p.Yield && useConv && len(p.Converters) > 0 && (prop == "C09" || prop == "C16") && !p.Poip && run%7 != 6 && r.IntN(quietOdds) == 0 {
+	qd := r.IntN(12)
+	if (p.Yield && qd%quietOdds == 0 || prop == "C16" && !p.Yield && qd < 3) && useConv && len(p.Converters) > 0 && (prop == "C09" || prop == "C16") && !p.Poip && run%7 != 6 {
 		// quiet plan around one converter job: a single tag without payload or time
 		// filter (an import that only extends streams does not make it pending)
 		// with a converter attached, captures imported one by one in order. What
@@ -780,6 +781,9 @@ func Gen(prop, tier string, seed, run uint64) Plan {
 		for i := 0; i < nf; i++ {
 			impOps = append(impOps, Op{C: CImp, K: "Import", Files: []int{i}})
 		}
+		// most jobs are slow to start here: a converter job that waits at its
+		// start while imports and tagging jobs go on fills the converter's queue
+		p.Hold = 700
 	}
 	for _, o := range impOps {
 		add(o)
